@@ -38,6 +38,13 @@ measurement (right after creation / after measurements and builds with other bin
 any executor.  Result against fresh caches as for all histories; a fresh measurement with the scale limit lowered by
 4e-8 rad shows that the facing records were counted.  A differing measurement together with differing metadata of a
 reopened catalog is reported as a failing input; differing metadata alone break the tie (ctx.disagree).
+
+Options (props/c07_options.py, run last in the same long-lived process): histories whose measurements differ in their
+OPTIONS from step to step (rmin / rmax, unit, rweight, resolution, cosmology, both max_workers, closed side, binning,
+entry point; "explicit value, then unset", "one option changed", other spellings of the same value), executed by the
+process itself, the simulated pool and a real pool; every measurement is compared bit for bit with the same measurement
+made by a process that has done nothing else on caches of its own; Model/EffOptions.v (c07_ocase) ties the effective
+options (unset = default) and says which histories would expose a record of options shared between measurements.
 """
 import os
 import pickle
@@ -63,6 +70,9 @@ TRUSTED = [
     "harness-side observation of patch metadata: Catalog.get_num_records / get_sum_weights / get_centers / get_radii of the "
     "object in use, converted exactly; the scale limit of the linkage-limit family is chosen by evaluating the documented "
     "linkage rule on these values (no verdict depends on it: whether the facing records are counted is measured)",
+    "option histories: the process without history is a child forked per request from a server interpreter "
+    "(props/c07_options.py run as a script, same source tree) that imports the library and does nothing else; results are "
+    "compared by SHA-1 of the bit patterns of all counts / sum_weights arrays; the simulated pool is sim/pool.py",
 ]
 ASSUMPTIONS = [
     "a cache directory is used by one catalog in one role per measurement (the same cache passed twice to one "
@@ -72,6 +82,9 @@ ASSUMPTIONS = [
     "patch linkage (C07_count_linked_all etc.): stated for any distance that is symmetric and satisfies the triangle "
     "inequality, with rational values; the angular distance on the sphere is such a distance (not formalised here), the "
     "float64 evaluation of the linkage test is exercised at margins down to 1e-12 rad, not modelled",
+    "options (C07_effective_options_history_independent etc.): the theorems are about the options a process USES as a "
+    "function of its history of configurations; that the pair counts are a function of the options in use, the records and "
+    "the trees is exercised end-to-end against processes without history, not proved",
 ]
 RULE = ("cases = (history of <= 10 steps on 3 catalogs, every step with its executor: measuring process / real pool of 2-3 "
         "workers / forked child process, data seed); distinct by (steps incl. executors, data seed); non-trivial when, "
@@ -79,7 +92,11 @@ RULE = ("cases = (history of <= 10 steps on 3 catalogs, every step with its exec
         "measurement asks for (the reuse decision sees a stored binning that must be rejected or was replaced); "
         "linkage-limit cases (generated geometry + scale limit, history with reopen steps, data seed): non-trivial when the "
         "fresh measurement counts the facing records of the closest patch pair within 4e-8 rad of the scale limit (lowering "
-        "the limit changes the result) and the final measurement runs on a Catalog object reopened from its cache")
+        "the limit changes the result) and the final measurement runs on a Catalog object reopened from its cache; "
+        "option histories (2-6 measurements in the long-lived process, options as written per step, executors, data seed): "
+        "distinct by (steps by value, data seed); non-trivial when Model/EffOptions.v alias_exposed marks a step, i.e. a "
+        "record of options shared between measurements and updated only with the options that are set would use other "
+        "effective options there than the configuration says (an option set earlier is unset now, and it matters)")
 
 HEADER = "From Verif Require Import Prelude TreeCache.\nOpen Scope Q_scope.\n"
 
@@ -1280,8 +1297,13 @@ def optimised_probe(ctx):
 def run(ctx):
     run_specs(ctx, specs(ctx))
     optimised_probe(ctx)
+    from props import c07_options
+    c07_options.run(ctx)      # last: the process has all the histories above behind it
 
 
 def replay(ctx, body):
     spec = body.get("replay", body)
+    if spec.get("kind") == "options":
+        from props import c07_options
+        return c07_options.replay(ctx, spec)
     run_specs(ctx, [dict(dseed=spec["dseed"], ops=spec["ops"], geom=spec.get("geom"))])
